@@ -123,6 +123,14 @@ def main(argv=None):
     for b in sorted(total.buckets):
         if b in known:
             seen_known.append(b)
+            mc = known[b].get('max_count')
+            if mc is not None and total.buckets[b]['count'] > mc:
+                # the listed finding covers exactly mc failing cases; more of them is a different violation
+                nb = '%s#count>%d' % (b, mc)
+                total.buckets[nb] = dict(total.buckets[b])
+                total.buckets[nb]['detail'] = '%d failing cases where the known finding lists %d; %s' % (
+                    total.buckets[b]['count'], mc, total.buckets[b]['detail'])
+                viol.append(nb)
         else:
             viol.append(b)
     for b in seen_known:
